@@ -27,6 +27,9 @@ type op struct {
 	// another goroutine and wait for it - an ABI call that takes long while a notification arrives.
 	Trig   []byte
 	During *op
+	// reorg only: verdict the verifier gives for Trig from this step on
+	SetTrigVerdict bool
+	TrigVerdict    int32
 }
 
 const keepVerdict int32 = -100
@@ -52,7 +55,11 @@ func (o *op) String() string {
 		return "block-" + o.Kind + "(" + strings.Join(p, ",") + ")"
 	case "reorg":
 		if o.During != nil {
-			return "reorg[while verifying " + short(o.Trig) + ": " + o.During.String() + "]"
+			tv := ""
+			if o.SetTrigVerdict {
+				tv = " (verifier:=" + verdictName(o.TrigVerdict) + ")"
+			}
+			return "reorg[while verifying " + short(o.Trig) + tv + ": " + o.During.String() + "]"
 		}
 		return "reorg"
 	case "verdict":
@@ -231,6 +238,10 @@ func (x *exec) prim(o *op) {
 		x.hist = append(x.hist, o.String()+" ...")
 		x.count("op_reorg")
 		fired := false
+		if o.SetTrigVerdict {
+			x.e.ver.set(o.Trig, o.TrigVerdict)
+			x.count("op_set_verdict_" + verdictName(o.TrigVerdict))
+		}
 		if o.During != nil {
 			d := o.During
 			x.e.ver.arm(o.Trig, func() {
@@ -639,6 +650,37 @@ func (g *gen) next(x *exec) *op {
 				o.During = &op{Kind: "remove", ID: same[r.Intn(len(same))].ID}
 			case q < 70:
 				o.During = &op{Kind: "remove", ID: pooled[r.Intn(len(pooled))].ID}
+			case q < 85:
+				// a replacement of the trigger or of a later nonce of its sender arrives while the
+				// promotion pass is verifying the trigger (which the verifier may turn down)
+				var later []*txpool.TransactionWithFeePriority
+				for _, e := range same {
+					if e.Nonce >= trig.Nonce {
+						later = append(later, e)
+					}
+				}
+				old := later[r.Intn(len(later))]
+				fee := old.Fee + g.cfg.Diff + uint64(r.Intn(2))
+				if old.Fee > math.MaxUint64-g.cfg.Diff-1 {
+					fee = old.Fee
+				}
+				pp := make([]byte, 4)
+				r.Read(pp)
+				var snd *sender
+				for _, c := range senders() {
+					if c.addr == senderKey(old.Transaction) {
+						snd = c
+					}
+				}
+				if snd == nil {
+					o.During = g.newTx(x)
+					break
+				}
+				o.During = &op{Kind: "add", Tx: mkTx(snd, old.Nonce, fee, pp), Verdict: keepVerdict, Note: "replace-during-verification"}
+				if r.Intn(2) == 0 {
+					o.TrigVerdict = labi.TxVerifyResultInvalid
+					o.SetTrigVerdict = true
+				}
 			default:
 				o.During = g.newTx(x)
 			}
